@@ -26,6 +26,10 @@ def nontrivial(kind, ins, outs):
 
 
 def shrink_candidates(inp):
+    if inp.startswith("smtp "):
+        from props import smtpcommon
+        yield from smtpcommon.shrink_candidates(inp)
+        return
     parts = inp.split(" ")
     kind, f = parts[0], parts[1:]
     for i, x in enumerate(f):
